@@ -279,6 +279,72 @@ fn supervision_case(heard_after: Option<usize>, heard_kind: u64, delay_frac: u64
     Ok(())
 }
 
+/// Supervision with two successors: LAS {5, 6, 7}; #6 is dead (three passes, removed), then the
+/// token goes to #7 which misses `missed` passes (0..=3) before it is heard.
+fn supervision3_case(missed: usize, obs: &mut Obs) -> CaseResult {
+    const A: u8 = 6;
+    const B: u8 = 7;
+    let mut w = new_world();
+    // TS listens while the ring {6, 7} circulates the token; then #7 (its predecessor) admits it
+    for _ in 0..5 {
+        w.inject(&token(A, B), &mut ());
+        w.step(w.bit_us(50));
+        w.inject(&token(B, A), &mut ());
+        w.step(w.bit_us(50));
+    }
+    w.inject(&token(A, B), &mut ());
+    w.step(w.bit_us(50));
+    let idx = w.trace_len();
+    w.inject(&status_req(TS, B), &mut ());
+    w.step(w.bit_us(200));
+    let rep = w.frames_since(idx);
+    ensure!(rep.len() == 1 && matches!(&rep[0].1, Some(RefFrame::Data { fc, .. }) if fc >> 4 & 3 == 2), "harness", "station did not report 'ready' to its predecessor after five rotations: {:?}", rep.iter().map(|x| x.1.clone()).collect::<Vec<_>>());
+    w.inject(&token(B, TS), &mut ());
+    // observe the passes
+    let mut to_a: Vec<i64> = vec![];
+    let mut to_b: Vec<i64> = vec![];
+    let mut to_self = 0;
+    let mut seen = w.trace_len();
+    let mut heard = false;
+    let t_end = w.now + w.bit_us(SLOT * 14);
+    while w.now < t_end {
+        w.step(5);
+        let new = w.frames_since(seen);
+        seen = w.trace_len();
+        for (t, f) in new {
+            match f {
+                Some(RefFrame::Token { da, sa }) if sa == TS && da == A => to_a.push(t.start_ns),
+                Some(RefFrame::Token { da, sa }) if sa == TS && da == B => {
+                    to_b.push(t.start_ns);
+                    if to_b.len() == missed + 1 && !heard {
+                        heard = true;
+                        let end_us = (t.end_ns + 999) / 1000;
+                        while w.now < end_us + w.bit_us(60) {
+                            w.step(5);
+                        }
+                        w.bus.inject(ENV, w.now, &status_req(9, B));
+                    }
+                }
+                Some(RefFrame::Token { da, sa }) if sa == TS && da == TS => to_self += 1,
+                _ => {}
+            }
+        }
+    }
+    let las: Vec<u8> = w.fdl.inspect_token_ring().iter_active_stations().collect();
+    ensure!(to_a.len() == 3, "pass-attempts", "dead successor #6: {} token passes to it (expected the pass and two repetitions)", to_a.len());
+    ensure!(!las.contains(&A), "silent-successor-kept", "dead successor #6 still in the LAS {:?}", las);
+    if missed <= 2 {
+        ensure!(to_b.len() == missed + 1, "pass-attempts", "next successor #7 missed {} passes and was then heard: {} passes to it (expected {}); LAS {:?}, passes to itself {}", missed, to_b.len(), missed + 1, las, to_self);
+        ensure!(las.contains(&B), "heard-successor-removed", "successor #7 was heard after missing {} passes but is no longer in the LAS {:?}", missed, las);
+        ensure!(to_self == 0, "token-kept", "token passed to itself although successor #7 is alive");
+    } else {
+        ensure!(to_b.len() == 3, "pass-attempts", "silent successor #7: {} passes (expected three)", to_b.len());
+        ensure!(!las.contains(&B) && to_self >= 1, "silent-successor-kept", "after three silent attempts #7 must be removed and the token kept: LAS {:?}", las);
+    }
+    obs.label(&format!("second-successor-missed-{missed}"));
+    Ok(())
+}
+
 pub fn seq_from_index(mut code: u64, depth: u32) -> Vec<Act> {
     let mut v = vec![];
     for _ in 0..depth {
@@ -328,6 +394,11 @@ pub fn property() -> Property {
                 obs.sample(|| json!({"start": start, "actions": format!("{:?}", acts)}));
                 r
             }),
+            SubCheck::index("supervision3", "own token pass with two successors in the LAS: the first is dead (removed after three passes), the second misses 0..3 passes", |i, obs| {
+                obs.nontrivial(i);
+                obs.sample(|| json!({"las": [5, 6, 7], "dead": 6, "second_successor_misses": i}));
+                supervision3_case(i as usize, obs)
+            }),
             SubCheck::index("supervision", "own token pass: successor silent, or heard after pass 1/2/3 (3 kinds x 8 delays)", |i, obs| {
                 let ha = match i % 4 {
                     0 => None,
@@ -341,11 +412,13 @@ pub fn property() -> Property {
         plan: |tier| match tier {
             Tier::Quick => vec![
                 Step::Enumerate { kind: "supervision", count: 96 },
+                Step::Enumerate { kind: "supervision3", count: 4 },
                 Step::Enumerate { kind: "seq4", count: 2 * 14u64.pow(4) },
                 Step::Pbt { kind: "random", cases: 6000, max_len: 48 },
             ],
             Tier::Thorough => vec![
                 Step::Enumerate { kind: "supervision", count: 96 },
+                Step::Enumerate { kind: "supervision3", count: 4 },
                 Step::Enumerate { kind: "seq5", count: 2 * 14u64.pow(5) },
                 Step::Pbt { kind: "random", cases: 60_000, max_len: 48 },
             ],
